@@ -291,6 +291,9 @@ func feasibleReach(from, to *ssa.BasicBlock, known map[ssa.Value]bool, target *s
 				return visit(s, b, e2, onPath)
 			}
 			for i, s := range b.Succs {
+				if deadEdge(b, s) {
+					continue
+				}
 				e2 := env.clone()
 				e2.learn(iff.Cond, i == 0)
 				if visit(s, b, e2, onPath) {
@@ -299,7 +302,7 @@ func feasibleReach(from, to *ssa.BasicBlock, known map[ssa.Value]bool, target *s
 			}
 			return false
 		}
-		for _, s := range b.Succs {
+		for _, s := range liveSuccs(b) {
 			if visit(s, b, env, onPath) {
 				return true
 			}
